@@ -146,8 +146,12 @@ func c01NewGQM() *GroupQuotaManager {
 	return NewGroupQuotaManager("", false, c01RL(c01Vec{c01Huge, c01Huge}), c01RL(c01Vec{c01Huge, c01Huge}))
 }
 
-func c01NodeObj(name string) *corev1.Node {
-	return &corev1.Node{ObjectMeta: metav1.ObjectMeta{Name: name}, Status: corev1.NodeStatus{Allocatable: c01RL(c01Vec{10, 10})}}
+func c01NodeObj(name string) *corev1.Node { return c01NodeObjCap(name, c01Vec{10, 10}) }
+
+type corev1Node = corev1.Node
+
+func c01NodeObjCap(name string, cap c01Vec) *corev1.Node {
+	return &corev1.Node{ObjectMeta: metav1.ObjectMeta{Name: name}, Status: corev1.NodeStatus{Allocatable: c01RL(cap)}}
 }
 
 func c01NewSys(cfg *c01Cfg, ops []c01Op) *c01Sys {
